@@ -123,6 +123,14 @@ def call_value(folder: "Folder", f: Any, args: list, kwargs: Optional[dict] = No
         return f.call(folder, args, kwargs)
     if type(f).__name__ == "_BoundMethod":
         return f.call(folder, args, kwargs)
+    if type(f).__name__ == "AObj":
+        # an instance of a repository class that defines __call__
+        m = f._ctx_.repo.lookup_method(f._cls_, "__call__")
+        if m is not None:
+            from .absint import _BoundMethod
+
+            return _BoundMethod(f, m).call(folder, args, kwargs)
+        raise Unfoldable("not callable: %r" % (f,))
     if f is None:
         from .absint import Raised
 
@@ -228,7 +236,7 @@ class Folder:
         if isinstance(e, ast.Attribute):
             if d is not None and d.split(".")[0] in self.env:
                 base = self.fold(e.value)
-                if isinstance(base, Abstract) and (not e.attr.startswith("__") or e.attr == "__name__") and hasattr(base, e.attr):
+                if isinstance(base, Abstract) and (not e.attr.startswith("__") or e.attr == "__name__") and (type(base).__name__ != "AObj" or e.attr in base.__dict__ or e.attr.startswith("_record") or e.attr in ("_replace", "_asdict")) and hasattr(base, e.attr):
                     return getattr(base, e.attr)
                 if type(base).__name__ == "AObj":
                     from .absint import aobj_member
@@ -257,7 +265,7 @@ class Folder:
                 return base[e.attr]
             if isinstance(base, (int, Fraction)) and not isinstance(base, bool) and e.attr in ("numerator", "denominator"):
                 return getattr(base, e.attr)
-            if isinstance(base, Abstract) and (not e.attr.startswith("__") or e.attr == "__name__") and hasattr(base, e.attr):
+            if isinstance(base, Abstract) and (not e.attr.startswith("__") or e.attr == "__name__") and (type(base).__name__ != "AObj" or e.attr in base.__dict__ or e.attr in ("_replace", "_asdict")) and hasattr(base, e.attr):
                 return getattr(base, e.attr)
             if type(base).__name__ == "AObj":
                 from .absint import aobj_member
@@ -660,7 +668,9 @@ class Folder:
             except StopIteration:
                 if len(args) == 2:
                     return self.fold(args[1])
-                raise Unfoldable("next() of an exhausted iterator")
+                from .absint import Raised
+
+                raise Raised("StopIteration", e)  # what the evaluated program sees
             except TypeError:
                 raise Unfoldable(unparse(e))
         if name == "object" and not args:
@@ -794,6 +804,10 @@ class Folder:
                     acc = call_value(self, f, [acc, v])
                 return acc
             raise Unfoldable(unparse(e))
+        if name == "itertools.count" and len(args) <= 2 and not e.keywords:
+            import itertools as _it
+
+            return _it.count(*[self.fold(a) for a in args])
         if name in ("itertools.repeat", "repeat") and len(args) == 2:
             return [self.fold(args[0])] * int(self.fold(args[1]))
         if name in ("itertools.repeat",) and len(args) == 1:
@@ -862,6 +876,8 @@ class Folder:
             return Fraction(*[self.fold(a) for a in args])
         if type(fv).__name__ == "_BoundMethod":
             return fv.call(self, [self.fold(a) for a in args], {k.arg: self.fold(k.value) for k in e.keywords if k.arg})
+        if type(fv).__name__ == "AObj":
+            return call_value(self, fv, [self.fold(a) for a in args], {k.arg: self.fold(k.value) for k in e.keywords if k.arg})
         if isinstance(fv, Abstract) and callable(fv):
             return fv(*[self.fold(a) for a in args], **{k.arg: self.fold(k.value) for k in e.keywords if k.arg})
         if self.repo is not None and self.mod is not None and isinstance(e.func, (ast.Name, ast.Attribute)):
